@@ -134,6 +134,23 @@ def call_resolution(w, e, r, rest, args, kwargs, s):
 def call_on_value(w, e, recv, mname, args, kwargs, s):
     from . import tables
 
+    nt = recv
+    if recv[0] == "global" and recv[1].startswith("const:"):
+        lit = w.eng.const_literal(recv[1][6:])
+        if lit is not None and lit[0] == "nt":
+            nt = lit
+    if nt[0] == "nt" and len(nt) == 3:
+        ci = w.prog.classes.get(nt[1])
+        names = [n for n, _d in ci.nt_fields()] if ci is not None else []
+        if mname in names:
+            # a field that holds a callable: obj.field(args)
+            return call_value(w, e, nt[2][names.index(mname)], args, kwargs, s)
+        m = w.prog.find_method(nt[1], mname)
+        if m is not None and m[0] == "repo":
+            fi = m[1]
+            if fi.is_classmethod or fi.is_staticmethod:
+                return apply_repo(w, e, fi, nt[1], args, kwargs, s)
+            return apply_repo(w, e, fi, None, (nt,) + tuple(args), kwargs, s)
     if recv[0] == "global":
         q = recv[1]
         if q.startswith("class:"):
@@ -155,7 +172,37 @@ def call_value(w, e, val, args, kwargs, s):
     if val[0] == "closure":
         fi = w.prog.funcs.get(val[1])
         if fi is not None:
-            return apply_repo(w, e, fi, None, args, kwargs, s)
+            return apply_repo(w, e, fi, None, args, kwargs, s, closure=val)
+    if val[0] == "partial" and val[1] == ("global", "ext:operator.itemgetter") and len(args) == 1 and not kwargs and val[2]:
+        # itemgetter(k1, k2, ...)(obj) == (obj[k1], obj[k2], ...)  /  itemgetter(k)(obj) == obj[k]
+        c0 = tables.Ctx(w, e, "ext:operator.itemgetter", args, kwargs, s)
+        cur = [(s, [])]
+        outs = []
+        for key in val[2]:
+            nxt = []
+            for s1, got in cur:
+                c0.s = s1
+                for s2, k2, p2 in tables._apply_subscript(c0, args[0], key):
+                    if k2 == "val":
+                        nxt.append((s2, got + [p2]))
+                    else:
+                        outs.append((s2, k2, p2))
+            cur = nxt
+        for s1, got in cur:
+            outs.append((s1, "val", got[0] if len(val[2]) == 1 else ("lit", "tuple", tuple(got), None)))
+        return outs
+    if val[0] == "partial" and val[1] == ("global", "ext:operator.methodcaller") and len(args) == 1 and not kwargs and val[2] and is_const(val[2][0]) and isinstance(val[2][0][2], str):
+        # methodcaller(name, *a, **kw)(obj) == obj.name(*a, **kw)
+        return call_on_value(w, e, args[0], val[2][0][2], tuple(val[2][1:]), tuple(val[3]), s)
+    if val[0] == "partial":
+        # functools.partial(f, *a, **kw)(*args, **kwargs) == f(*a, *args, **{**kw, **kwargs})
+        kw = dict(val[3])
+        kw.update(dict(kwargs))
+        return call_value(w, e, val[1], tuple(val[2]) + tuple(args), tuple(kw.items()), s)
+    if val[0] == "global" and val[1].startswith("const:"):
+        lit = w.eng.const_literal(val[1][6:])
+        if lit is not None and lit != val and _is_callable_term(lit):
+            return call_value(w, e, lit, args, kwargs, s)
     if val[0] == "global":
         q = val[1]
         if q.startswith("func:"):
@@ -166,6 +213,8 @@ def call_value(w, e, val, args, kwargs, s):
             return tables.apply_ext(w, e, q[4:], args, kwargs, s)
         if q.startswith("builtin:"):
             return tables.apply_builtin(w, e, q[8:], args, kwargs, s)
+    if val[0] == "attr" and isinstance(val[1], tuple) and val[1] and val[1][0] == "nt":
+        return call_on_value(w, e, val[1], val[2], args, kwargs, s)
     if val[0] == "attr" and isinstance(val[1], tuple):
         # a bound method taken as a value earlier (sign = key.sign; sign(x)): call it on its receiver
         if val[2] in tables.METHODS:
@@ -218,7 +267,7 @@ def bind_params(w, e, fi, args, kwargs, skip_first):
     return mp, names + kwonly
 
 
-def apply_repo(w, e, fi, clsbind, args, kwargs, s):
+def apply_repo(w, e, fi, clsbind, args, kwargs, s, closure=None):
     is_method = fi.cls is not None and not fi.is_staticmethod
     if fi.cls is not None and not fi.is_classmethod and not fi.is_staticmethod:
         # instance method called through the class (Class.m(obj, ...)): first arg is self
@@ -236,18 +285,53 @@ def apply_repo(w, e, fi, clsbind, args, kwargs, s):
         s1.ev("call", site, callee, tuple(args), kwargs, ("raise", "TypeError"))
         outs.append((s1, "raise", Exc("TypeError", [site], (), "implicit", "call does not match signature: " + order)))
         return outs
+    if fi.parent is not None:
+        # free variables of a nested function / lambda: the current bindings when it is called in
+        # the frame that created it (late binding), else the snapshot taken at creation
+        same_frame = w.fi is fi.parent or getattr(w.fi, "qualname", None) == fi.parent.qualname
+        caps = dict(closure[2]) if closure is not None and len(closure) > 2 else {}
+        order = list(order)
+        for nm in fi.free_vars():
+            if same_frame and nm in s.env:
+                mp[nm] = s.env[nm]
+            elif nm in caps:
+                mp[nm] = caps[nm]
+            else:
+                mp[nm] = Fresh("free_" + nm)
+            order.append(nm)
     argterms = tuple(mp[n] for n in order)
+    if fi.is_generator:
+        # calling a generator function runs nothing: its body is walked where the generator is
+        # consumed (for loop, comprehension, dict()/list()/next(), yield from)
+        s1 = s.copy()
+        s1.ev("gen-create", site, callee, argterms)
+        return [(s1, "val", ("gen", fi.qualname, tuple((n, mp[n]) for n in order)))]
     # a callee that receives a function / class object (a higher-order helper such as
     # _passes(check, value)) is analysed specialised on that argument, so that the call through
     # the parameter resolves
-    funargs = tuple(sorted((n, mp[n]) for n in order if _is_callable_term(mp[n])))
+    will_inline = fi.parent is not None or getattr(fi, "is_lambda", False) or fi.qualname in w.inline or (w.inline and fi.qualname.split(".")[-1].startswith("_") and fi.mod.short == w.fi.mod.short and "@private" in w.inline)
+    # ... and a private helper that is analysed in place is also specialised on constant string
+    # arguments (message templates, field names), so that e.g. template.format(x) is decided
+    funargs = tuple(sorted(((n, mp[n]) for n in order if _is_callable_term(mp[n]) or (will_inline and is_const(mp[n]) and isinstance(mp[n][2], str))), key=lambda kv: kv[0]))
+    back = {}
     if funargs:
-        callee = callee + "<" + ",".join("%s=%s" % (n, t[1]) for n, t in funargs) + ">"
+        # parameters of the *caller* that occur inside such an argument (captured variables of a
+        # closure, arguments of a generator) must not be confused with the callee's own parameters
+        ren = {}
+        for _n, v in funargs:
+            for nm in _param_names(v):
+                ren[P(nm)] = P("^" + nm)
+        if ren:
+            funargs = tuple((n, subst(v, ren)) for n, v in funargs)
+            back = {v: k for k, v in ren.items()}
+    if funargs:
+        callee = callee + "<" + ",".join("%s=%s" % (n, t[1] if isinstance(t[1], str) and t[0] != "const" else "%s#%x" % (t[0], hash(t) & 0xFFFFFF)) for n, t in funargs) + ">"
     callterm = CallT(callee, argterms)
     w.eng.callee_index[callee] = (fi, clsbind_eff, tuple(order))
-    mode = "inline" if (fi.qualname in w.inline or callee in w.inline or (w.inline and fi.qualname.split(".")[-1].startswith("_") and fi.mod.short == w.fi.mod.short and "@private" in w.inline)) else "grouped"
+    mode = "inline" if (fi.parent is not None or getattr(fi, "is_lambda", False) or fi.qualname in w.inline or callee in w.inline or (w.inline and fi.qualname.split(".")[-1].startswith("_") and fi.mod.short == w.fi.mod.short and "@private" in w.inline)) else "grouped"
     sm = w.eng.summary(fi, clsbind_eff, w.inline if mode == "inline" else frozenset(), funargs)
     pmap = {P(n): mp[n] for n in order}
+    pmap.update(back)
     if sm is None:
         # recursive call (see Engine.summary): opaque
         s1 = s.copy()
@@ -338,8 +422,31 @@ def apply_repo(w, e, fi, clsbind, args, kwargs, s):
     return outs
 
 
+def _param_names(t):
+    out = set()
+    if isinstance(t, tuple):
+        if len(t) == 2 and t[0] == "param" and isinstance(t[1], str):
+            out.add(t[1])
+        else:
+            for x in t:
+                if isinstance(x, (tuple, frozenset)):
+                    out |= _param_names(x)
+    elif isinstance(t, frozenset):
+        for x in t:
+            out |= _param_names(x)
+    return out
+
+
 def _is_callable_term(t):
-    return isinstance(t, tuple) and len(t) == 2 and ((t[0] == "global" and t[1].startswith(("func:", "class:"))) or t[0] == "closure")
+    if not isinstance(t, tuple) or not t:
+        return False
+    if len(t) == 2 and t[0] == "global" and t[1].startswith(("func:", "class:")):
+        return True
+    if t[0] == "closure" or (t[0] == "gen" and len(t) == 3):
+        return True
+    if t[0] == "partial" and len(t) == 4:
+        return _is_callable_term(t[1]) or (isinstance(t[1], tuple) and t[1] and t[1][0] == "global")
+    return False
 
 
 COND_KINDS = {
